@@ -324,7 +324,7 @@ func TestVerif_C08_exhaustive(t *testing.T) {
 		{Kind: "adv", DeltaS: 6 * 60},
 		{Kind: "sweep"},
 	}
-	maxLen := vh.Pick(5, 7)
+	maxLen := vh.Pick(5, 8)
 	rec.SetExhaustive(true)
 	idx := 0
 	var gen func(prefix []c08Op)
